@@ -37,4 +37,15 @@ META = {
                 "a panic site missed by the model shows up as a correspondence disagreement only if the generators reach it.",
         "technique": "Lean 4 proof: parser loop invariants + sentence invariant by induction over operation histories; differential correspondence",
     },
+    "C04": {
+        "text": "Unbounded Lean theorems over the mirrored partial-annotation parser (alternating is_char state machine, escapes inside "
+                "tags) and writer: for every sentence with non-empty NUL-free text, any N/W/U labels and any non-empty tags on any "
+                "character (delimiters and NUL allowed inside tags), parse(write s) returns the same text, the same label at every "
+                "boundary and the same tags at every character up to trailing absent tags (C04_roundtrip); every accepted string "
+                "yields such a sentence (C04_parsed_wf). Tied to /repo by random round trips with 60% delimiter characters in tags, "
+                "exhaustive short-string parser runs, and an implementation-side round-trip oracle.",
+        "design_ref": "DESIGN.md §6 C04",
+        "note": _common_note + "The writer model escapes {space,-,|,/,\\} in tags, i.e. it is the writer after fix commit 8c39a01.",
+        "technique": "Lean 4 proof: parser-state invariant by induction over the written characters; differential correspondence",
+    },
 }
